@@ -46,6 +46,7 @@ type Flow struct {
 	Q    [][2]string `json:"q"`
 	S    []int       `json:"s"`
 	Typ  string      `json:"typ"`
+	Ans  int         `json:"ans"` // engine level: > 0 = the request half of the flow answers with this status (GenerateResponse)
 }
 
 type Txn struct {
@@ -70,6 +71,14 @@ func render(u [2][]string) string {
 		s += "/" + strings.Join(u[1], "/")
 	}
 	return s
+}
+
+// pathOf: the path HAProxy reports next to the URL ("/a/b"; empty for a host-only URL)
+func pathOf(u [2][]string) string {
+	if len(u[1]) == 0 {
+		return ""
+	}
+	return "/" + strings.Join(u[1], "/")
 }
 
 func kvs(p [][2]string) []public_types.KeyValue {
@@ -118,7 +127,7 @@ func apiStream(t Txn, id string) public_types.APIStreamI {
 		}, shared)
 	}
 	return stream_types.NewRequestAPIStream(lunar_messages.OnRequest{
-		ID: id, SequenceID: id, Method: t.Method, Scheme: "https", URL: render(t.URL), Query: query(t), Headers: hdr,
+		ID: id, SequenceID: id, Method: t.Method, Scheme: "https", URL: render(t.URL), Path: pathOf(t.URL), Query: query(t), Headers: hdr,
 	}, shared)
 }
 
@@ -146,7 +155,7 @@ func uniqSorted(s []string) []string {
 func flowEv(c Case) []any {
 	fl := []any{}
 	for _, f := range c.Flows {
-		fl = append(fl, vh.Ev{"name": f.Name, "pat": f.Pat, "m": nz(f.M), "h": nz2(f.H), "q": nz2(f.Q), "s": nzi(f.S), "typ": f.Typ})
+		fl = append(fl, vh.Ev{"name": f.Name, "pat": f.Pat, "m": nz(f.M), "h": nz2(f.H), "q": nz2(f.Q), "s": nzi(f.S), "typ": f.Typ, "ans": f.Ans})
 	}
 	return fl
 }
@@ -227,7 +236,7 @@ func runTree(cases []Case, tr *vh.Trace) {
 				}
 				sels = append(sels, uniqSorted(sel))
 			}
-			tr.Add(vh.Ev{"ev": "x", "x": txnEv(t), "sels": sels, "nact": -1})
+			tr.Add(vh.Ev{"ev": "x", "x": txnEv(t), "sels": sels, "nact": -1, "early": []vh.Ev{}})
 		}
 	}
 }
@@ -237,26 +246,27 @@ func runTree(cases []Case, tr *vh.Trace) {
 
 func yamlList(items []string) string { return "[" + strings.Join(items, ", ") + "]" }
 
-func flowYAML(f Flow) string {
+// filterYAML renders the filter of a flow / quota (indented by ind, starting with the url line)
+func filterYAML(f Flow, ind string) string {
 	var b strings.Builder
-	fmt.Fprintf(&b, "name: %s\nfilter:\n  url: %q\n", f.Name, render(f.Pat))
+	fmt.Fprintf(&b, "%surl: %q\n", ind, render(f.Pat))
 	if len(f.M) > 0 {
 		q := []string{}
 		for _, m := range f.M {
 			q = append(q, fmt.Sprintf("%q", m))
 		}
-		fmt.Fprintf(&b, "  method: %s\n", yamlList(q))
+		fmt.Fprintf(&b, "%smethod: %s\n", ind, yamlList(q))
 	}
 	if len(f.H) > 0 {
-		b.WriteString("  headers:\n")
+		b.WriteString(ind + "headers:\n")
 		for _, e := range f.H {
-			fmt.Fprintf(&b, "    - key: %q\n      value: %q\n", e[0], e[1])
+			fmt.Fprintf(&b, "%s  - key: %q\n%s    value: %q\n", ind, e[0], ind, e[1])
 		}
 	}
 	if len(f.Q) > 0 {
-		b.WriteString("  query_params:\n")
+		b.WriteString(ind + "query_params:\n")
 		for _, e := range f.Q {
-			fmt.Fprintf(&b, "    - key: %q\n      value: %q\n", e[0], e[1])
+			fmt.Fprintf(&b, "%s  - key: %q\n%s    value: %q\n", ind, e[0], ind, e[1])
 		}
 	}
 	if len(f.S) > 0 {
@@ -264,7 +274,84 @@ func flowYAML(f Flow) string {
 		for _, s := range f.S {
 			q = append(q, fmt.Sprintf("%d", s))
 		}
-		fmt.Fprintf(&b, "  status_code: %s\n", yamlList(q))
+		fmt.Fprintf(&b, "%sstatus_code: %s\n", ind, yamlList(q))
+	}
+	return b.String()
+}
+
+// quotasYAML: one quota resource per flow of type "quota" (fixed window that never fills up); the engine generates
+// the system flows of the quotas from their filters
+func quotasYAML(qs []Flow) string {
+	var b strings.Builder
+	b.WriteString("quotas:\n")
+	for _, f := range qs {
+		fmt.Fprintf(&b, "  - id: %s\n    filter:\n%s", f.Name, filterYAML(f, "      "))
+		b.WriteString("    strategy:\n      fixed_window:\n        max: 100000000\n        interval: 1\n        interval_unit: hour\n")
+	}
+	return b.String()
+}
+
+const answerTemplate = `processors:
+  procReq:
+    processor: UserDefinedMetrics
+    parameters:
+      - key: metric_name
+        value: "verif_req"
+      - key: metric_type
+        value: "counter"
+  answer:
+    processor: GenerateResponse
+    parameters:
+      - key: status
+        value: %d
+      - key: body
+        value: "answered by the gateway"
+      - key: Content-Type
+        value: text/plain
+  procRes:
+    processor: UserDefinedMetrics
+    parameters:
+      - key: metric_name
+        value: "verif_res"
+      - key: metric_type
+        value: "counter"
+flow:
+  request:
+    - from:
+        stream:
+          name: globalStream
+          at: start
+      to:
+        processor:
+          name: procReq
+    - from:
+        processor:
+          name: procReq
+      to:
+        processor:
+          name: answer
+  response:
+    - from:
+        processor:
+          name: answer
+      to:
+        processor:
+          name: procRes
+    - from:
+        processor:
+          name: procRes
+      to:
+        stream:
+          name: globalStream
+          at: end
+`
+
+func flowYAML(f Flow) string {
+	var b strings.Builder
+	fmt.Fprintf(&b, "name: %s\nfilter:\n%s", f.Name, filterYAML(f, "  "))
+	if f.Ans > 0 {
+		fmt.Fprintf(&b, answerTemplate, f.Ans)
+		return b.String()
 	}
 	b.WriteString(`processors:
   procReq:
@@ -330,6 +417,34 @@ flow:
 
 type execRec struct{ flow, key, dir string }
 
+func contains(l []string, x string) bool {
+	for _, y := range l {
+		if x == y {
+			return true
+		}
+	}
+	return false
+}
+
+// quotaOf: the quota (by id) a processor key of a generated system flow belongs to
+func quotaOf(key string, quotas []Flow) string {
+	for _, q := range quotas {
+		if strings.HasPrefix(key, q.Name+"_") || strings.HasSuffix(key, "_"+q.Name) || key == q.Name {
+			return q.Name
+		}
+	}
+	return ""
+}
+
+func earlyResponse(a *stream_config.StreamActions) bool {
+	for _, x := range a.Request.Actions {
+		if x != nil && x.IsEarlyReturnType() {
+			return true
+		}
+	}
+	return false
+}
+
 func runEngine(cases []Case, tr *vh.Trace, work string) {
 	repo := os.Getenv("VERIF_REPO")
 	if repo == "" {
@@ -367,9 +482,25 @@ func runEngine(cases []Case, tr *vh.Trace, work string) {
 				vh.Die("mkdir: %v", err)
 			}
 		}
+		quotas := []Flow{}
 		for _, f := range c.Flows {
+			if f.Typ == "quota" {
+				quotas = append(quotas, f)
+				continue
+			}
 			if err := os.WriteFile(filepath.Join(dir, "flows", f.Name+".yaml"), []byte(flowYAML(f)), 0o644); err != nil {
 				vh.Die("write flow: %v", err)
+			}
+		}
+		if len(quotas) > 0 {
+			if err := os.WriteFile(filepath.Join(dir, "quotas", "quotas.yaml"), []byte(quotasYAML(quotas)), 0o644); err != nil {
+				vh.Die("write quotas: %v", err)
+			}
+		}
+		userFlow := map[string]bool{}
+		for _, f := range c.Flows {
+			if f.Typ != "quota" {
+				userFlow[f.Name] = true
 			}
 		}
 		builds := c.Builds
@@ -390,6 +521,7 @@ func runEngine(cases []Case, tr *vh.Trace, work string) {
 		tr.Add(vh.Ev{"ev": "reset", "flows": flowEv(c), "orders": [][]int{}})
 		for ti, t := range c.Txns {
 			sels := [][]string{}
+			earlies := []vh.Ev{}
 			nact := 0
 			for _, st := range engines {
 				before := st.GetFlowInvocations()
@@ -402,27 +534,58 @@ func runEngine(cases []Case, tr *vh.Trace, work string) {
 				if err := st.ExecuteFlow(as, actions); err != nil {
 					vh.Die("case %d txn %d: ExecuteFlow: %v", ci, ti, err)
 				}
-				sel := []string{}
+				if os.Getenv("C03_DEBUG") != "" {
+					for _, e := range execs {
+						fmt.Fprintf(os.Stderr, "exec case=%d txn=%d flow=%q key=%q dir=%s\n", ci, ti, e.flow, e.key, e.dir)
+					}
+				}
+				sel, rsel, early := []string{}, []string{}, 0
+				wantDir := "StreamTypeResponse"
 				if t.Side == "req" {
-					// request side: per-flow invocation counters of the engine
+					wantDir = "StreamTypeRequest"
+					// request side, user flows: per-flow invocation counters of the engine
 					after := st.GetFlowInvocations()
 					for name, n := range after {
 						if n > before[name] {
 							sel = append(sel, name)
 						}
 					}
-				} else {
-					// response side: processor executions reported by the proc.exec hook
-					for _, e := range execs {
+				}
+				for _, e := range execs {
+					// a quota is selected when a processor of its generated system flow ran (the processor key carries the quota id)
+					if q := quotaOf(e.key, quotas); q != "" {
+						if e.dir == wantDir {
+							sel = append(sel, q)
+						} else {
+							rsel = append(rsel, q)
+						}
+						continue
+					}
+					if !userFlow[e.flow] {
+						continue
+					}
+					if t.Side == "resp" {
+						// response side, user flows: processor executions reported by the proc.exec hook
 						sel = append(sel, e.flow)
+					} else if e.dir == "StreamTypeResponse" {
+						// a request answered inside the gateway: the response halves that ran on the generated response
+						rsel = append(rsel, e.flow)
+					}
+				}
+				if t.Side == "req" {
+					for _, f := range c.Flows {
+						if f.Ans > 0 && contains(sel, f.Name) && earlyResponse(actions) {
+							early = f.Ans
+						}
 					}
 				}
 				if n := len(actions.Request.Actions) + len(actions.Response.Actions); n > nact {
 					nact = n
 				}
 				sels = append(sels, uniqSorted(sel))
+				earlies = append(earlies, vh.Ev{"st": early, "rsel": uniqSorted(rsel)})
 			}
-			tr.Add(vh.Ev{"ev": "x", "x": txnEv(t), "sels": sels, "nact": nact})
+			tr.Add(vh.Ev{"ev": "x", "x": txnEv(t), "sels": sels, "nact": nact, "early": earlies})
 		}
 		os.RemoveAll(dir)
 	}
